@@ -427,11 +427,37 @@ def r6_reload_default_filled(chk: Check):
     chk.require(bool(sets), chk.fkey(ti, "defaults filled"), "TypeConfig.__init__ must store the declared default of every parameter that is not given", chk.loc(ti.module, ti.node))
 
 
+def r7_inherited_argument_precedence(chk: Check):
+    """which declaration of an inherited parameter counts (its default, its ignored / meta kind) follows Python's own resolution: first base first"""
+    tree = chk.tree
+    f = tree.func("core.types", "ObjectType.__initialize__")
+    g = CFG(f.node)
+    loc = chk.loc(f.module, f.node)
+    stores = [n for n in g.live if n.kind == "stmt" and isinstance(n.ast, ast.Assign) and any(src(t) == "self._arguments" for t in n.ast.targets)]
+    chk.require(len(stores) == 1, chk.fkey(f, "argument table"), "the argument table of a type must be built once", loc)
+    if len(stores) != 1:
+        return
+    v = stores[0].ast.value
+    ok = False
+    if isinstance(v, ast.Call) and (dotted(v.func) or "").split(".")[-1] == "ChainMap" and len(v.args) == 2 and isinstance(v.args[0], ast.Dict) and not v.args[0].keys and isinstance(v.args[1], ast.Starred):
+        gen = v.args[1].value
+        if isinstance(gen, (ast.GeneratorExp, ast.ListComp)) and len(gen.generators) == 1 and src(gen.generators[0].iter) == "self.parents()" and not gen.generators[0].ifs \
+                and src(gen.elt) == f"{src(gen.generators[0].target)}.arguments":
+            ok = True  # first parent shadows the later ones; the own (empty) map shadows all
+    else:
+        # a plain dictionary filled by successive updates: the last update wins, so the parents must be taken last-to-first
+        ups = [n for n in g.live if n.kind == "for" and any(isinstance(c, ast.Call) and src(c.func) == "self._arguments.update" for s_ in n.ast.body for c in walk_local(s_))]
+        ok = bool(ups) and all(src(n.ast.iter).startswith("reversed(") and "self.parents()" in src(n.ast.iter) for n in ups)
+    chk.require(ok, chk.fkey(f, "first base wins"), f"inherited parameters are gathered by `{src(stores[0].ast)[:120]}`: when two bases declare the same parameter the first base must win (as for the Python attribute), "
+                "otherwise the default / ignored flag used by the identifier is not the one of the value the user sees", loc)
+
+
 RULES = [
     ("R1", "frame condition: no function computing identifiers reads tags, dependencies, job, launcher, workspace, run mode or documentation", r1_frame),
     ("R2", "argument-loop decision table equals the documented rule for all consistent assignments of its atoms; the decision depends on no other condition", r2_table),
     ("R3", "list and dict branches hash only members that are not meta-flagged; length prefix = length of the filtered sequence; is_ignored / remove_meta agree", r3_containers),
     ("R4", "declaration tables: Path ignored by type, Option/Meta/DataPath ignored, Param not, generators registered", r4_declarations),
+    ("R7", "inherited parameters: the declaration of the first base wins (ChainMap order = MRO), so the default / ignored flags used by the identifier are those of the visible attribute", r7_inherited_argument_precedence),
     ("R6", "configurations reloaded from disk are default-filled by the ordinary constructor before the stored fields are restored (a defaulted parameter added later leaves old identifiers unchanged)", r6_reload_default_filled),
     ("R5", "the full identifier adds only pre-task and init-task raw identifiers", r5_full_identifier),
 ]
